@@ -289,6 +289,11 @@ func modOrd(i int) fp.Ord[int] {
 	m := modulus(i)
 	return fp.CompareFunc[int](func(a, b int) int {
 		ka, kb := a%m, b%m
+		if i%2 == 0 {
+			// every other position answers with a magnitude: fp.CompareFunc / ord.FromCompare hand the
+			// comparator's result through and only its sign is meaningful (see C10)
+			return (i + 2) * (ka - kb)
+		}
 		switch {
 		case ka < kb:
 			return -1
